@@ -1,1 +1,219 @@
-import PistacheModel.Model.Router
+/-
+C10 — Routing invokes the handler that the route table prescribes.
+The table of one method is a list of (pattern, handler); the tree `addRoute` builds is the implicit
+grouping of that list by next segment (Model/Router.lean).  `Matches` (Lemmas/Router.lean) is the
+specification of what a pattern matches and which bindings it produces.  All theorems hold for BOTH
+sibling orders `rev` (the C++ keeps same-kind siblings in an unordered_map).
+-/
+import PistacheModel.Lemmas.Router
+
+namespace Pistache.Router.Props
+open Pistache Pistache.Stream Pistache.Router
+
+/-! ### soundness: whatever is found is a registered route that matches, with the right bindings -/
+
+theorem leafFind_sound (rev : Bool) : ∀ (fuel : Nat) (n : Node) (ps0 : List (Bytes × Bytes)) (ss0 : List Bytes) (f : Found),
+    leafFind rev fuel n ps0 ss0 = some f →
+    ∃ pat h ps ss, (pat, h) ∈ n ∧ Matches pat [] ps ss ∧ f = { handler := h, params := ps0 ++ ps, splats := ss0 ++ ss } := by
+  intro fuel
+  induction fuel with
+  | zero => intro n ps0 ss0 f h; simp [leafFind] at h
+  | succ fuel ih =>
+    intro n ps0 ss0 f h
+    unfold leafFind at h
+    cases ho : ownRoute n with
+    | some hd =>
+      rw [ho] at h
+      simp only [Option.some.injEq] at h
+      exact ⟨[], hd, [], [], ownRoute_some n hd ho, Matches.nil, by rw [← h]; simp⟩
+    | none =>
+      rw [ho] at h
+      simp only at h
+      obtain ⟨nm, hnm, hf⟩ := List.exists_of_findSome?_eq_some h
+      obtain ⟨pat, hd, ps, ss, hm, hmat, hfe⟩ := ih (childOpt n nm) ps0 ss0 f hf
+      exact ⟨.opt nm :: pat, hd, ps, ss, (mem_childOpt n nm pat hd).mp hm, Matches.optAbsent nm hmat, hfe⟩
+
+/-- T1 (soundness): the handler `findRoute` returns belongs to a registered pattern that matches the
+    path, and the parameters / splats it reports are exactly the bindings of that match, appended in
+    path order to what was already bound. -/
+theorem findRoute_sound (rev : Bool) : ∀ (path : List Bytes) (n : Node) (ps0 : List (Bytes × Bytes)) (ss0 : List Bytes) (f : Found),
+    findRoute rev n path ps0 ss0 = some f →
+    ∃ pat h ps ss, (pat, h) ∈ n ∧ Matches pat path ps ss ∧ f = { handler := h, params := ps0 ++ ps, splats := ss0 ++ ss } := by
+  intro path
+  induction path with
+  | nil => intro n ps0 ss0 f h; rw [findRoute] at h; exact leafFind_sound rev _ n ps0 ss0 f h
+  | cons seg rest ih =>
+    intro n ps0 ss0 f h
+    rw [findRoute] at h
+    cases h1 : findRoute rev (childFixed n seg) rest ps0 ss0 with
+    | some f1 =>
+      rw [h1] at h; simp only [Option.some.injEq] at h; subst h
+      obtain ⟨pat, hd, ps, ss, hm, hmat, hfe⟩ := ih _ ps0 ss0 f1 h1
+      exact ⟨.fixed seg :: pat, hd, ps, ss, (mem_childFixed n seg pat hd).mp hm, Matches.fixed seg hmat, hfe⟩
+    | none =>
+      rw [h1] at h; simp only at h
+      cases h2 : (order rev (paramNames n)).findSome? (fun nm => findRoute rev (childParam n nm) rest (ps0 ++ [(nm, seg)]) ss0) with
+      | some f2 =>
+        rw [h2] at h; simp only [Option.some.injEq] at h; subst h
+        obtain ⟨nm, _, hf⟩ := List.exists_of_findSome?_eq_some h2
+        obtain ⟨pat, hd, ps, ss, hm, hmat, hfe⟩ := ih _ _ ss0 f2 hf
+        exact ⟨.param nm :: pat, hd, (nm, seg) :: ps, ss, (mem_childParam n nm pat hd).mp hm, Matches.param nm seg hmat,
+          by rw [hfe]; simp [List.append_assoc]⟩
+      | none =>
+        rw [h2] at h; simp only at h
+        cases h3 : (order rev (optNames n)).findSome? (fun nm => findRoute rev (childOpt n nm) rest (ps0 ++ [(nm, seg)]) ss0) with
+        | some f3 =>
+          rw [h3] at h; simp only [Option.some.injEq] at h; subst h
+          obtain ⟨nm, _, hf⟩ := List.exists_of_findSome?_eq_some h3
+          obtain ⟨pat, hd, ps, ss, hm, hmat, hfe⟩ := ih _ _ ss0 f3 hf
+          exact ⟨.opt nm :: pat, hd, (nm, seg) :: ps, ss, (mem_childOpt n nm pat hd).mp hm, Matches.optTake nm seg hmat,
+            by rw [hfe]; simp [List.append_assoc]⟩
+        | none =>
+          rw [h3] at h; simp only at h
+          obtain ⟨pat, hd, ps, ss, hm, hmat, hfe⟩ := ih _ ps0 _ f h
+          exact ⟨.splat :: pat, hd, ps, seg :: ss, (mem_childSplat n pat hd).mp hm, Matches.splat seg hmat,
+            by rw [hfe]; simp [List.append_assoc]⟩
+
+/-! ### completeness: if any registered pattern matches, a handler is found -/
+
+theorem findSome_isSome {α β : Type} (l : List α) (g : α → Option β) (a : α) (ha : a ∈ l) (hg : (g a).isSome) :
+    (l.findSome? g).isSome := by
+  rw [List.findSome?_isSome_iff]; exact ⟨a, ha, hg⟩
+
+theorem leafFind_complete (rev : Bool) : ∀ (pat : Pattern) (fuel : Nat) (n : Node) (h : Nat) (ps : List (Bytes × Bytes)) (ss : List Bytes)
+    (ps0 : List (Bytes × Bytes)) (ss0 : List Bytes),
+    (pat, h) ∈ n → Matches pat [] ps ss → pat.length < fuel → (leafFind rev fuel n ps0 ss0).isSome := by
+  intro pat
+  induction pat with
+  | nil =>
+    intro fuel n h ps ss ps0 ss0 hm _ hf
+    obtain ⟨f, rfl⟩ : ∃ f, fuel = f + 1 := ⟨fuel - 1, by omega⟩
+    unfold leafFind
+    have := ownRoute_isSome n h hm
+    cases ho : ownRoute n with
+    | some hd => simp
+    | none => rw [ho] at this; simp at this
+  | cons sg pat' ih =>
+    intro fuel n h ps ss ps0 ss0 hm hmat hf
+    obtain ⟨f, rfl⟩ : ∃ f, fuel = f + 1 := ⟨fuel - 1, by omega⟩
+    unfold leafFind
+    cases ho : ownRoute n with
+    | some hd => simp
+    | none =>
+      simp only
+      cases hmat with
+      | optAbsent nm hmat' =>
+        apply findSome_isSome _ _ nm
+        · rw [mem_order, mem_optNames]; exact ⟨pat', h, hm⟩
+        · exact ih f (childOpt n nm) h _ _ ps0 ss0 ((mem_childOpt n nm pat' h).mpr hm) hmat' (by simp only [List.length_cons] at hf; omega)
+
+/-- T2 (completeness): whenever SOME registered pattern matches the path, `findRoute` finds a handler
+    (so 404/405 is produced only when no route of that method matches). -/
+theorem findRoute_complete (rev : Bool) : ∀ (path : List Bytes) (n : Node) (pat : Pattern) (h : Nat)
+    (ps : List (Bytes × Bytes)) (ss : List Bytes) (ps0 : List (Bytes × Bytes)) (ss0 : List Bytes),
+    (pat, h) ∈ n → Matches pat path ps ss → (findRoute rev n path ps0 ss0).isSome := by
+  intro path
+  induction path with
+  | nil =>
+    intro n pat h ps ss ps0 ss0 hm hmat
+    rw [findRoute]
+    exact leafFind_complete rev pat _ n h ps ss ps0 ss0 hm hmat (by have := maxLen_ge n pat h hm; omega)
+  | cons seg rest ih =>
+    intro n pat h ps ss ps0 ss0 hm hmat
+    rw [findRoute]
+    cases h1 : findRoute rev (childFixed n seg) rest ps0 ss0 with
+    | some f1 => simp
+    | none =>
+      simp only
+      cases h2 : (order rev (paramNames n)).findSome? (fun nm => findRoute rev (childParam n nm) rest (ps0 ++ [(nm, seg)]) ss0) with
+      | some f2 => simp
+      | none =>
+        simp only
+        cases h3 : (order rev (optNames n)).findSome? (fun nm => findRoute rev (childOpt n nm) rest (ps0 ++ [(nm, seg)]) ss0) with
+        | some f3 => simp
+        | none =>
+          simp only
+          -- the match must go through one of the four kinds; three of them contradict h1/h2/h3
+          cases hmat with
+          | fixed s hmat' =>
+            have := ih (childFixed n seg) _ h _ _ ps0 ss0 ((mem_childFixed n seg _ h).mpr hm) hmat'
+            rw [h1] at this; simp at this
+          | param nm x hmat' =>
+            have hs := findSome_isSome (order rev (paramNames n))
+              (fun nm => findRoute rev (childParam n nm) rest (ps0 ++ [(nm, seg)]) ss0) nm
+              (by rw [mem_order, mem_paramNames]; exact ⟨_, h, hm⟩)
+              (ih (childParam n nm) _ h _ _ _ ss0 ((mem_childParam n nm _ h).mpr hm) hmat')
+            rw [h2] at hs; simp at hs
+          | optTake nm x hmat' =>
+            have hs := findSome_isSome (order rev (optNames n))
+              (fun nm => findRoute rev (childOpt n nm) rest (ps0 ++ [(nm, seg)]) ss0) nm
+              (by rw [mem_order, mem_optNames]; exact ⟨_, h, hm⟩)
+              (ih (childOpt n nm) _ h _ _ _ ss0 ((mem_childOpt n nm _ h).mpr hm) hmat')
+            rw [h3] at hs; simp at hs
+          | splat x hmat' =>
+            exact ih (childSplat n) _ h _ _ ps0 _ ((mem_childSplat n _ h).mpr hm) hmat'
+
+/-! ### precedence: fixed over parameter over optional over wildcard, segment by segment -/
+
+/-- T3: if a route continuing with the FIXED segment `seg` matches, the answer comes from the fixed
+    child — never from a parameter, optional or wildcard sibling. -/
+theorem fixed_wins (rev : Bool) (n : Node) (seg : Bytes) (rest : List Bytes) (ps0 : List (Bytes × Bytes)) (ss0 : List Bytes)
+    (pat : Pattern) (h : Nat) (ps : List (Bytes × Bytes)) (ss : List Bytes)
+    (hm : (.fixed seg :: pat, h) ∈ n) (hmat : Matches pat rest ps ss) :
+    findRoute rev n (seg :: rest) ps0 ss0 = findRoute rev (childFixed n seg) rest ps0 ss0 := by
+  have := findRoute_complete rev rest (childFixed n seg) pat h ps ss ps0 ss0 ((mem_childFixed n seg pat h).mpr hm) hmat
+  rw [findRoute]
+  cases h1 : findRoute rev (childFixed n seg) rest ps0 ss0 with
+  | some f1 => rfl
+  | none => rw [h1] at this; simp at this
+
+/-- T4: if no fixed continuation matches but a PARAMETER continuation does, the answer comes from a
+    parameter child — never from an optional or wildcard sibling. -/
+theorem param_wins (rev : Bool) (n : Node) (seg : Bytes) (rest : List Bytes) (ps0 : List (Bytes × Bytes)) (ss0 : List Bytes)
+    (hnf : findRoute rev (childFixed n seg) rest ps0 ss0 = none)
+    (nm : Bytes) (pat : Pattern) (h : Nat) (ps : List (Bytes × Bytes)) (ss : List Bytes)
+    (hm : (.param nm :: pat, h) ∈ n) (hmat : Matches pat rest ps ss) :
+    ∃ nm' f, nm' ∈ paramNames n ∧ findRoute rev (childParam n nm') rest (ps0 ++ [(nm', seg)]) ss0 = some f ∧
+      findRoute rev n (seg :: rest) ps0 ss0 = some f := by
+  have hs := findSome_isSome (order rev (paramNames n))
+    (fun nm => findRoute rev (childParam n nm) rest (ps0 ++ [(nm, seg)]) ss0) nm
+    (by rw [mem_order, mem_paramNames]; exact ⟨_, h, hm⟩)
+    (findRoute_complete rev rest (childParam n nm) pat h ps ss _ ss0 ((mem_childParam n nm pat h).mpr hm) hmat)
+  cases h2 : (order rev (paramNames n)).findSome? (fun nm => findRoute rev (childParam n nm) rest (ps0 ++ [(nm, seg)]) ss0) with
+  | none => rw [h2] at hs; simp at hs
+  | some f2 =>
+    obtain ⟨nm', hnm', hf⟩ := List.exists_of_findSome?_eq_some h2
+    refine ⟨nm', f2, (mem_order rev _ nm').mp hnm', hf, ?_⟩
+    rw [findRoute, hnf]; simp only [h2]
+
+/-- T5: at the end of the path a route registered for exactly this path wins over routes that
+    continue with an absent optional parameter (the repaired leaf rule). -/
+theorem own_route_wins (rev : Bool) (n : Node) (h : Nat) (ps0 : List (Bytes × Bytes)) (ss0 : List Bytes)
+    (hr : ownRoute n = some h) :
+    findRoute rev n [] ps0 ss0 = some { handler := h, params := ps0, splats := ss0 } := by
+  rw [findRoute]; unfold leafFind; rw [hr]
+
+/-! ### add / remove: the table is exactly what the sequence of operations denotes -/
+
+/-- T6: after removing a route, lookups behave as if it had never been added; other routes are
+    untouched (the table is the list, the tree is implicit in it). -/
+theorem remove_only_that (tbl : Node) (path : Bytes) (pat : Pattern) (tbl' : Node)
+    (hp : patternOf (sanitize path) = .ok pat) (hr : removeRoute tbl path = .ok tbl') :
+    ∀ pr, pr ∈ tbl' ↔ (pr ∈ tbl ∧ pr.1 ≠ pat) := by
+  unfold removeRoute at hr
+  rw [hp] at hr
+  simp only [Except.ok.injEq] at hr
+  subst hr
+  intro pr; simp [List.mem_filter]
+
+/-! ### Non-vacuity (tests) -/
+
+def tA : Node := [([.fixed (bytes "a")], 1), ([.fixed (bytes "a"), .opt (bytes ":o"), .fixed (bytes "b")], 2)]
+
+example : lookup false tA (bytes "/a") = some { handler := 1, params := [], splats := [] } := by decide +kernel
+example : lookup false tA (bytes "//a///x/b/") = some { handler := 2, params := [(bytes ":o", bytes "x")], splats := [] } := by decide +kernel
+example : lookup true tA (bytes "/a/b") = none := by decide +kernel
+example : Matches [.fixed (bytes "a"), .opt (bytes ":o")] [bytes "a"] [] [] :=
+  Matches.fixed _ (Matches.optAbsent _ Matches.nil)
+
+end Pistache.Router.Props
